@@ -188,8 +188,12 @@ def shift_cases(draw, tier):
     big = tier == 'thorough'
     c = draw(gen.path_cases(max_frames=40 if big else 12, max_atoms=8 if big else 4, max_step=0.5 - 1e-6))
     shape = np.shape(c['path'])
-    mode = draw(st.sampled_from(['per-coordinate', 'per-coordinate', 'per-frame', 'single', 'zero']))
-    if mode == 'per-coordinate':
+    mode = draw(st.sampled_from(['per-coordinate', 'per-coordinate', 'per-frame', 'single', 'zero', 'far']))
+    if mode == 'far':
+        # whole lattice vectors far beyond the range of 16-bit cell counters (an unwrapped coordinate after a very long run)
+        n = int(np.prod(shape))
+        shift = np.array(draw(st.lists(st.sampled_from([0, 0, 32767, 32768, -32769, 40000, 65536, -65537, 100000]), min_size=n, max_size=n))).reshape(shape).tolist()
+    elif mode == 'per-coordinate':
         shift = draw(gen.int_shifts(shape))
     elif mode == 'per-frame':
         s = np.array(draw(gen.int_shifts((shape[0], 1, 3))))
